@@ -480,6 +480,12 @@ def _multilabel_accuracy_update_input_check(
             f"got shapes {input.shape} and {target.shape}."
         )
 
+    if input.ndim != 2:
+        raise ValueError(
+            "input should have shape (num_sample, num_classes), "
+            f"got shape {input.shape}."
+        )
+
 
 def _topk_multilabel_accuracy_update_input_check(
     input: torch.Tensor,
